@@ -81,10 +81,16 @@ func c16Leaf(asProp bool) (*gen.Ex, *c16Want) {
 		lit := gen.NumLit(3)
 		e = &gen.Ex{Kind: gen.KFloat, Lit: lit}
 		w.tok, w.styp, w.val = "number", "float", lit
-		if v.Choose(0, 1) == 1 {
+		switch v.Choose(0, 2) {
+		case 1:
 			e.Rules = append(e.Rules, gen.Rule{Name: "precision", Value: bs("3")})
 			w.rules = append(w.rules, c16Rule{"precision", "number", bs("3")})
 			w.styp = "decimal"
+		case 2:
+			// bounds written with a decimal point (possibly a trailing zero): the AST keeps the spelling
+			p, q := gen.NumLit(4), gen.NumLit(6)
+			e.Rules = append(e.Rules, gen.Rule{Name: "min", Value: p}, gen.Rule{Name: "max", Value: q})
+			w.rules = append(w.rules, c16Rule{"min", "number", p}, c16Rule{"max", "number", q})
 		}
 	case 3:
 		lit := gen.BoolLit()
